@@ -6,6 +6,8 @@ import shutil
 import sys
 import tempfile
 
+REPO = os.environ.get("VERIF_REPO", "/repo")     # self-test override, see ./check
+
 
 def main():
     out = sys.argv[1]
@@ -13,9 +15,9 @@ def main():
     os.environ.setdefault("MPLBACKEND", "Agg")
     scratch = tempfile.mkdtemp(prefix="discopy-suite-")
     try:
-        shutil.copytree("/repo/test", os.path.join(scratch, "test"))
-        for root, dirs, _ in os.walk("/repo/docs/_static/imgs"):
-            os.makedirs(os.path.join(scratch, os.path.relpath(root, "/repo")), exist_ok=True)
+        shutil.copytree(REPO + "/test", os.path.join(scratch, "test"))
+        for root, dirs, _ in os.walk(REPO + "/docs/_static/imgs"):
+            os.makedirs(os.path.join(scratch, os.path.relpath(root, REPO)), exist_ok=True)
         os.makedirs(os.path.join(scratch, "docs/_static/imgs"), exist_ok=True)
         os.chdir(scratch)
         from harness.project import DiagramSink
@@ -23,7 +25,7 @@ def main():
         import pytest
         args = ["-q", "-p", "no:cacheprovider", "--no-header", "-W", "ignore", "test"]
         if doctests:
-            args += ["--doctest-modules", "/repo/discopy", "--continue-on-collection-errors"]
+            args += ["--doctest-modules", REPO + "/discopy", "--continue-on-collection-errors"]
         with open(os.devnull, "w") as devnull:
             old = sys.stdout
             sys.stdout = devnull
